@@ -26,6 +26,22 @@ What is new with respect to `ExtraTranslator` (everything else is inherited unch
     `zip(a, b)`; augmented assignment; `while c: ..` in a raising function as a fuelled recursion (`fuel` parameter).
   * `len(x)`, `len(set(x))`, list comprehension over `zip`, bytes literals, a closed float expression over module
     constants with `ceil`/`log2` (evaluated by the translator, emitted as a literal), `<H>(x).digest()`.
+  * NORMALISATIONS (equivalent spellings give the SAME Lean text, so that a behaviour-preserving rewrite of the Python
+    leaves the generated file and the tie proofs alone):
+      - `if not all(<e> for <x> in <xs>): <raise>`  and  `if any(<e> for <x> in <xs>): <raise>`  are translated as the loops
+        `for <x> in <xs>: if not <e>: <raise>`  /  `for <x> in <xs>: if <e>: <raise>`  (a generator expression is consumed
+        in order, `all` / `any` stop at the first falsy / truthy element, an exception of `<e>` propagates at once: exactly
+        what the loop does; `<xs>` is evaluated once, first, in both);
+      - `not a == b` is `a != b` (and `not a != b` is `a == b`) when both operands are ints, byte strings, bools or lists /
+        tuples of such (for these builtin types `!=` is by definition the negation of `==`);
+      - `return <a> if <c> else <b>` is `if <c>: return <a>` / `else: return <b>`;
+      - `return <a1> and .. and <an>` (resp. `or`) in which an operand after the first contains a call that may raise or
+        that returns an `Outcome` is `if not <a1>: return False` .. `return <an>` (resp. `if <a1>: return True` ..): the
+        operands are evaluated left to right and only as far as Python evaluates them; every operand but the last must be
+        bool-valued (a comparison, `not`, a bool variable / call), otherwise the translation is refused.
+    A call that may raise under `and` / `or` / `.. if .. else ..` in any other position is refused (it would have to be
+    evaluated conditionally).
+  * `all(<e> for <x> in <xs>)` / `any(..)` as a VALUE, with `<e>` free of raising calls: `List.all` / `List.any`.
 
 As everywhere in this translator: anything not understood raises `TranslateError`.
 """
@@ -106,6 +122,21 @@ def read_before_rebound(stmts, name):
         elif loads(st):
             return True
     return False
+
+
+def quantifier_call(e, env):
+    """`all(<genexp>)` / `any(<genexp>)` with one `for` clause and no filter: ("all" | "any", generator expression), else None"""
+    if isinstance(e, ast.Call) and isinstance(e.func, ast.Name) and e.func.id in ("all", "any") and e.func.id not in env \
+            and len(e.args) == 1 and not e.keywords and isinstance(e.args[0], ast.GeneratorExp):
+        g = e.args[0]
+        if len(g.generators) != 1 or g.generators[0].ifs or g.generators[0].is_async:
+            raise TranslateError(f"unsupported generator expression in {e.func.id}(..)")
+        return e.func.id, g
+    return None
+
+
+def target_names(t):
+    return [n.id for n in ast.walk(t) if isinstance(n, ast.Name)]
 
 
 class ClassInfo:
@@ -399,6 +430,23 @@ class BlsTranslator(ExtraTranslator):
         body = "".join(f"let {a} := {b}; " for a, b in lets) + str(s)
         return f"(List.map (fun (it : {lean_type_b(itt[1])}) => {body}) {paren(it)})", LIST(t)
 
+    def quantifier_value(self, which, g, env):
+        """`all(<e> for <x> in <xs>)` / `any(..)` as a value: `List.all` / `List.any` (no raising call inside `<e>`: the
+        element test is then a total, effect-free function, for which stopping early or not is unobservable)"""
+        gen = g.generators[0]
+        it, itt = self.iterable(gen.iter, env)
+        if not (isinstance(itt, tuple) and itt[0] == "list"):
+            raise TranslateError(f"{which}(..) over {itt}")
+        env2, lets = self.bind_target(gen.target, itt[1], env, "it")
+        save, self.binds = self.binds, None   # a raising call inside the element test is refused by `ext_call`
+        try:
+            c = self.cond(g.elt, env2)
+        finally:
+            self.binds = save
+        body = "".join(f"let {a} := {b}; " for a, b in lets) + f"decide {c}"
+        fn = "List.all" if which == "all" else "List.any"
+        return f"({fn} {paren(it)} (fun (it : {lean_type_b(itt[1])}) => {body}))", BOOL
+
     def bind_target(self, target, et, env, var):
         """bind a loop / comprehension target to the element `var` of type et: (new env, [(name, projection)])"""
         env2 = dict(env)
@@ -431,7 +479,47 @@ class BlsTranslator(ExtraTranslator):
             return f"(List.zip {paren(a)} {paren(b)})", LIST(T(ta[1], tb[1]))
         return super().iterable(e, env)
 
+    BUILTIN_EQ = (NAT, INT, LIT, BOOL, BYTES)
+
+    def builtin_eq_type(self, t):
+        """a type whose Python `!=` is by definition `not ==` (int, bool, bytes, lists / tuples of such)"""
+        if t in self.BUILTIN_EQ:
+            return True
+        if isinstance(t, tuple) and t[0] == "list":
+            return self.builtin_eq_type(t[1])
+        if isinstance(t, tuple) and t[0] == "tuple":
+            return all(self.builtin_eq_type(x) for x in t[1])
+        return False
+
+    def lookahead(self, e, env):
+        """the static type of e (translation discarded; hoisted calls and fresh names rolled back)"""
+        mark = (None if self.binds is None else len(self.binds)), self.fresh
+        save = (self.uses_H, self.uses_cls)
+        had = self.binds is not None
+        if not had:
+            self.binds = []
+        try:
+            _, t = self.expr(e, env)
+        finally:
+            if had:
+                del self.binds[mark[0]:]
+            else:
+                self.binds = None
+            self.fresh = mark[1]
+            self.uses_H, self.uses_cls = save
+        return t
+
     def cond(self, e, env):
+        # `not a == b`  ==  `a != b`,  `not a != b`  ==  `a == b`  on builtin value types
+        if isinstance(e, ast.UnaryOp) and isinstance(e.op, ast.Not) and isinstance(e.operand, ast.Compare) \
+                and len(e.operand.ops) == 1 and isinstance(e.operand.ops[0], (ast.Eq, ast.NotEq)):
+            c = e.operand
+            ta, tb = self.lookahead(c.left, env), self.lookahead(c.comparators[0], env)
+            if self.builtin_eq_type(ta) and self.builtin_eq_type(tb):
+                flipped = ast.Compare(left=c.left, ops=[ast.NotEq() if isinstance(c.ops[0], ast.Eq) else ast.Eq()],
+                                      comparators=c.comparators)
+                ast.copy_location(flipped, e)
+                return self.cond(flipped, env)
         # `isinstance(x, int) and <rest>` on a dynamically typed x: <rest> sees x as an int
         if isinstance(e, ast.BoolOp) and isinstance(e.op, ast.And) and len(e.values) >= 2:
             v0 = e.values[0]
@@ -468,6 +556,9 @@ class BlsTranslator(ExtraTranslator):
             if t != BYTES:
                 raise TranslateError("hash of non-bytes")
             return f"({hs}.run {paren(s)})", BYTES
+        q = quantifier_call(e, env)
+        if q is not None:
+            return self.quantifier_value(q[0], q[1], env)
         if isinstance(f, ast.Name) and f.id not in env:
             if f.id == "isinstance" and len(e.args) == 2 and not e.keywords and isinstance(e.args[1], ast.Name):
                 s, t = self.expr(e.args[0], env)
@@ -506,6 +597,70 @@ class BlsTranslator(ExtraTranslator):
                 return f"Outcome.returned {paren(s)}"
             raise TranslateError(f"{fn.name}: returns {t} where a bool is declared")
         return super().ret_stmt(value, env, fn)
+
+    def hexpr(self, e, env, fn, direct=False):
+        pre, s, t, is_call = super().hexpr(e, env, fn, direct=direct)
+        if (pre or is_call) and any(isinstance(n, (ast.BoolOp, ast.IfExp)) for n in ast.walk(e)):
+            # a hoisted call would be evaluated unconditionally, Python evaluates it only if the operands before it say so
+            raise TranslateError(f"{fn.name}: raising call under a short-circuit operator in {ast.unparse(e)[:60]}")
+        return pre, s, t, is_call
+
+    def needs_flow(self, nodes):
+        """does one of the expressions contain a call that may raise, or a call of a method returning an `Outcome`?"""
+        for x in nodes:
+            for n in ast.walk(x):
+                if not isinstance(n, ast.Call):
+                    continue
+                if self.call_raises(n):
+                    return True
+                m = self.method_of_call(n)
+                if m is not None and self.cur_class is not None:
+                    save = (self.uses_H, self.uses_cls)
+                    try:
+                        ext, _ = self.method_ext(m[0], after=m[1])
+                    finally:
+                        self.uses_H, self.uses_cls = save
+                    if ext.ret == OUTCOME:
+                        return True
+        return False
+
+    def is_bool_expr(self, e, env):
+        """is the Python VALUE of e certainly a bool (not merely something with a truth value)?"""
+        if isinstance(e, ast.Constant):
+            return isinstance(e.value, bool)
+        if isinstance(e, ast.UnaryOp) and isinstance(e.op, ast.Not):
+            return True
+        if isinstance(e, ast.BoolOp):
+            return all(self.is_bool_expr(v, env) for v in e.values)
+        if isinstance(e, ast.Compare):
+            # the comparisons this translator accepts are between ints, byte strings, lists, bools, field elements,
+            # `is None`, `in <tuple display>`: all of them return a bool
+            return True
+        if isinstance(e, (ast.Name, ast.Call)):
+            return self.lookahead(e, env) in (BOOL, "prop")
+        return False
+
+    def return_flow(self, value, env, fn):
+        """statements equivalent to `return <value>` when <value> needs control flow (see NORMALISATIONS), else None"""
+        def ret(v):
+            r = ast.Return(value=v)
+            ast.copy_location(r, value)
+            return ast.fix_missing_locations(r)
+        if isinstance(value, ast.IfExp):
+            new = ast.If(test=value.test, body=[ret(value.body)], orelse=[ret(value.orelse)])
+            ast.copy_location(new, value)
+            return [ast.fix_missing_locations(new)]
+        if isinstance(value, ast.BoolOp) and len(value.values) >= 2 and self.needs_flow(value.values[1:]):
+            first, others = value.values[0], value.values[1:]
+            if not self.is_bool_expr(first, env):
+                raise TranslateError(f"{fn.name}: operand {ast.unparse(first)[:40]} of and/or is not known to be a bool")
+            is_and = isinstance(value.op, ast.And)
+            test = ast.UnaryOp(op=ast.Not(), operand=first) if is_and else first
+            new = ast.If(test=test, body=[ret(ast.Constant(value=not is_and))], orelse=[])
+            ast.copy_location(new, value)
+            tail = others[0] if len(others) == 1 else ast.BoolOp(op=value.op, values=others)
+            return [ast.fix_missing_locations(new), ret(tail)]
+        return None
 
     def hcond(self, test, env, fn):
         """condition with raising calls hoisted in front (only where Python evaluates them unconditionally)"""
@@ -548,6 +703,10 @@ class BlsTranslator(ExtraTranslator):
         if tail_state is not None or not body:
             return super().block(body, env, fn, cur, tail_state=tail_state)
         st, rest = body[0], body[1:]
+        if isinstance(st, ast.Return) and st.value is not None and not rest:
+            flow = self.return_flow(st.value, env, fn)
+            if flow is not None:
+                return self.block(flow, env, fn, cur)
         if isinstance(st, ast.Return) and isinstance(st.value, ast.Name):
             if st.value.id == UNIT_MARK:
                 return "pure PUnit.unit"
@@ -585,7 +744,34 @@ class BlsTranslator(ExtraTranslator):
             return self.try_stmt(st, rest, env, fn, cur)
         return super().block(body, env, fn, cur)
 
+    def quantifier_guard(self, st, env):
+        """`if not all(G): <exit>` / `if any(G): <exit>` (no else): the equivalent `for` loop, else None"""
+        t = st.test
+        neg = False
+        if isinstance(t, ast.UnaryOp) and isinstance(t.op, ast.Not):
+            neg, t = True, t.operand
+        q = quantifier_call(t, env)
+        if q is None or st.orelse or not terminates(st.body):
+            return None
+        which, g = q
+        if (which == "all") != neg:
+            return None       # `if all(..)` / `if not any(..)`: the exit is taken after the whole sequence, not inside it
+        gen = g.generators[0]
+        bound = set(target_names(gen.target))
+        if bound & set(loaded_names(st.body)):
+            # inside the loop the name would be the loop variable, in the Python it is whatever the enclosing scope has
+            raise TranslateError(f"the body of `if {ast.unparse(st.test)[:40]}` mentions the generator's variable")
+        elt = ast.UnaryOp(op=ast.Not(), operand=g.elt) if which == "all" else g.elt
+        inner = ast.If(test=elt, body=st.body, orelse=[])
+        loop = ast.For(target=gen.target, iter=gen.iter, body=[inner], orelse=[])
+        for n in (inner, loop):
+            ast.copy_location(n, st)
+        return ast.fix_missing_locations(loop)
+
     def if_stmt(self, st, rest, env, fn, cur):
+        loop = self.quantifier_guard(st, env)
+        if loop is not None:
+            return self.for_stmt(loop, rest, env, fn, cur)
         tb, te = terminates(st.body), terminates(st.orelse)
         if tb and te:
             if rest:
